@@ -57,7 +57,8 @@ type env struct {
 	where  map[string]string
 	pkgs   map[string]*env // selector environments: "native" -> consts of dispatch_amd64.go
 	busy   map[string]bool
-	idents *[]string // when non-nil, every identifier / selector written in the expression is appended
+	idents *[]string                           // when non-nil, every identifier / selector written in the expression is appended
+	sizeof func(typeName string) (int64, bool) // unsafe.Sizeof(T{}) for struct types this extractor lays out
 }
 
 func newEnv() *env {
@@ -156,6 +157,15 @@ func (e *env) eval(x ast.Expr) constant.Value {
 	case *ast.CallExpr:
 		if id, ok := v.Fun.(*ast.Ident); ok && intConv[id.Name] && len(v.Args) == 1 {
 			return e.eval(v.Args[0])
+		}
+		if sel, ok := v.Fun.(*ast.SelectorExpr); ok && exprName(sel) == "unsafe.Sizeof" && len(v.Args) == 1 && e.sizeof != nil {
+			if cl, ok := v.Args[0].(*ast.CompositeLit); ok && len(cl.Elts) == 0 {
+				if id, ok := cl.Type.(*ast.Ident); ok {
+					if sz, ok := e.sizeof(id.Name); ok {
+						return constant.MakeInt64(sz)
+					}
+				}
+			}
 		}
 		die("%s: unsupported call in a constant expression", pos(v))
 	}
@@ -679,6 +689,15 @@ func emitFrame(b *strings.Builder, fr *frame) {
 		fr.lean, fr.loadFrame, fr.lean, fr.loadArgs, fr.lean, leanStrings([]string{fr.loadArgPtrs, fr.loadLocalPtrs}))
 }
 
+// je0: constants of the given files
+func je0(paths ...string) *env {
+	e := newEnv()
+	for _, p := range paths {
+		e.addFile(parse(p))
+	}
+	return e
+}
+
 func main() {
 	if len(os.Args) != 2 {
 		die("usage: factx_frames <repo root>")
@@ -757,6 +776,12 @@ func main() {
 	emitFrame(&b, gen)
 	b.WriteString("/-! encoder: internal/encoder/x86/assembler_regabi_amd64.go + internal/encoder/vars/stack.go -/\n")
 	emitFrame(&b, enc)
+	b.WriteString("/-! emitting code of the three assemblers: what writes SP, and where -/\n")
+	emitCodeShape(&b, readCodeShape("dec", jitdec, "_Assembler", je0(decAsm, genAsm)))
+	emitCodeShape(&b, readCodeShape("gen", jitdec, "_ValueDecoder", je0(decAsm, genAsm)))
+	emitCodeShape(&b, readCodeShape("enc", filepath.Dir(encAsm), "Assembler", je0(encAsm)))
+	emitEncoderState(&b, encVars, encAsm)
+	emitLoadFunc(&b, in("loader"))
 	b.WriteString("/-- words of `type _Decoder func(...)` (jitdec/pools.go), in order -/\n")
 	fmt.Fprintf(&b, "def decoderSigArgs : List SigWord := %s\ndef decoderSigResults : List SigWord := %s\n\n", leanWords(decArgs), leanWords(decRes))
 	b.WriteString("/-- words of `type Encoder func(...)` (internal/encoder/vars) -/\n")
